@@ -110,6 +110,12 @@ def gen(rng, tier, index):
                         "close": rng.random() < 0.5})
         else:
             ops.append({"op": "contains", "id": ident})
+    # observing the live handle primes its member caches, which can hide a
+    # stale cache: after some ops (most restarts) only the fresh handle looks
+    for o in ops:
+        o["peek"] = rng.random() < (0.3 if o["op"] == "restart" else 0.6)
+    if ops:
+        ops[-1]["peek"] = True
     return {
         "engine": "c13",
         "backend": backend,
@@ -489,6 +495,7 @@ def run(plan, tier="quick") -> RunResult:
 
                 # ---- the undocumented corner: write_nc of a completed id ---
                 amb = getattr(model, "_ambiguous", None)
+                amb_checked = amb is not None
                 if amb is not None:
                     obs_live = observe(store, store.ds)
                     if amb not in obs_live["completed"]:
@@ -499,8 +506,11 @@ def run(plan, tier="quick") -> RunResult:
                     model._ambiguous = None
 
                 # ---- observe ------------------------------------------------
-                live = observe(store, store.ds)
-                compare(store, model, live, "live", opdesc, res, replay, idclass)
+                if op.get("peek", True) or amb_checked:
+                    live = observe(store, store.ds)
+                    compare(store, model, live, "live", opdesc, res, replay, idclass)
+                else:
+                    res.probe("live-handle-not-observed")
                 if backend != "sqlite-mem":
                     ob = store.observer()
                     if ob is not None:
